@@ -822,6 +822,11 @@ def _r1(rep, d, tier):
         return tlc.run_tlc("PycCache.tla", cfg, workers=4, coverage=want is None)
     with ThreadPoolExecutor(len(jobs)) as ex:
         results = list(ex.map(one, range(len(jobs))))
+    return jobs, results
+
+
+def _r1_judge(rep, jobs, results):
+    """(main thread) verdicts of the design-level runs."""
     for (label, kw, want), res in zip(jobs, results):
         rep.tlc(res, label)
         if want is None:
@@ -846,11 +851,8 @@ def _tables(rep, d):
     cfg = _cfg(d, "MCTables", mods=["a"], confs=["default"], threads=[1], maxsrc=1, maxruns=0,
                marker="confkey", patch="unlocked", nest=False, inv="")
     res = tlc.run_tlc(os.path.join(d, "MCTables.tla"), cfg, workers=1)
-    rep.tlc(res, "Tables (Want, tags)")
     rows = [r for r in res.printed if isinstance(r, dict) and "want" in r]
-    if not rows:
-        rep.machinery("PycCache.tla Tables were not emitted")
-    return rows[0]
+    return res, rows[0] if rows else None
 
 
 def _scan_events(rep, log, beh):
@@ -890,7 +892,10 @@ def _references(rep, ctx, d, pool):
         steps = [{"op": "edit", "m": "a"}] * (v - 1) + [{"op": "run", "hook": {"a": c}, "order": ["a"]}]
         return ctx.exec_behaviour({"steps": steps})
     res = list(pool.map(one, cases))
-    tabs = tabs_f.result()
+    tres, tabs = tabs_f.result()
+    rep.tlc(tres, "Tables (Want, tags)")
+    if tabs is None:
+        rep.machinery("PycCache.tla Tables were not emitted")
     want = tabs["want"]
     patched = {}
     scanned = [_scan_events(rep, log, {"kind": "seq", "steps": [{"op": "run", "hook": {"a": c}, "order": ["a"]}]})
@@ -1102,9 +1107,9 @@ def _check_run(rep, ctx, beh, ri, r, exp_state, origin):
 
 
 def _seq_configs(tier):
-    return [("seq1", dict(mods=["a"], confs=ALL_CONFS, threads=[1], maxsrc=2, maxruns=3), 200 if tier == "quick" else None),
+    return [("seq1", dict(mods=["a"], confs=ALL_CONFS, threads=[1], maxsrc=2, maxruns=3), 130 if tier == "quick" else None),
             ("seq2", dict(mods=["a", "b"], confs=["default", "nopep"], threads=[1], maxsrc=1 if tier == "quick" else 2,
-                          maxruns=2), 40 if tier == "quick" else 800)]
+                          maxruns=2), 30 if tier == "quick" else 500)]
 
 
 def _conc_kw(ctx):
@@ -1209,7 +1214,7 @@ def _r2_concurrent(rep, ctx, d, pool, tier, rnd, fut):
     rep.tlc(res, f"faithful model ({ctx.marker_mode}/{ctx.patch_mode}), 2 threads: graph for schedules")
     g = tlc.parse_dot(dot + ".dot")
     out = {n: sorted(v) for n, v in g.out().items()}
-    n_sched = 80 if tier == "quick" else 800
+    n_sched = 60 if tier == "quick" else 500
     seen = set()
     starts = [(a, t) for a, t in out[g.init[0]]]
     tries = 0
@@ -1410,7 +1415,7 @@ def run(rep, tier, seed):
         ctx.traces.append(({"kind": "seq", "steps": [{"op": "run", "hook": {"a": "default", "b": "off"}, "order": ["a", "b"]}]}, warm[1]))
         ok = not (_scan_events(rep, warm[1], ctx.traces[0][0]) or _check_mixing(rep, ctx.traces[0][0], 0, warm[0][0]))
         ok = ok and _references(rep, ctx, d, pool)
-        r1.result()
+        _r1_judge(rep, *r1.result())
         if ok:
             with ThreadPoolExecutor(5) as tpool:
                 fut = _launch_tlc(ctx, d, tier, tpool)
@@ -1425,7 +1430,10 @@ def run(rep, tier, seed):
                 _r2_concurrent(rep, ctx, d, pool, tier, rnd, fut)
             _r3_traces(rep, ctx, d, tier, rnd)
         rep.add("interpreter_runs", ctx.child_runs)
-    rep.cov["exhaustive"] = tier == "thorough"
+    # TLC explores its bounded models exhaustively; the replay covers every run sequence of the
+    # one-module model in the thorough tier and seeded samples elsewhere
+    rep.cov["exhaustive"] = False
+    rep.cov["exhaustive_model_checking"] = True
 
 
 def replay(rep, path):
